@@ -75,3 +75,6 @@ package common
 //@   props C19
 //@   modifies nothing
 //@   ensures [C19:canonical-id] r == ite(id == "default" || id == "", "default", id)
+
+// Beacon.String() only formats its receiver for log lines (effect-free; its text is not used by any contract)
+//@ pure (*github.com/drand/drand/v2/common.Beacon).String
